@@ -702,6 +702,11 @@ def lookupV4NssProv : List NSAddr → Bool → Option Cause → Bool → NssResu
     else if c = .attemptLimit ∨ c = .loadShed then lookupV4NssProv rest have_ (some c) (prov || have_)
     else lookupV4NssProv rest have_ soft (prov || have_)
 
+/-- the request tree of the detached IPv6 name-server address job
+(`Resolver.lookupV6Nss`): whatever tree it was started from — with or without
+a recursion-work ledger — it runs marked as optional (best-effort) work. -/
+def v6JobCtx (c : Ctx) : Ctx := { c with bestEffort := true }
+
 /-- `processDelegation` after `lookupV4Nss` (non-minimized): is the zone
 published as unreachable (`errNoReachableAuth`)? -/
 def delegationRecordsZone (ctx : Ctx) (zoneEmpty : Bool) : NssResult → Bool
